@@ -254,7 +254,7 @@ class C01(Prop):
     id = "C01"
     anchored = ["src/pewlib/io/npz.py", "src/pewlib/calibration.py", "src/pewlib/config.py", "src/pewlib/srr/config.py",
                 "src/pewlib/laser.py", "src/pewlib/srr/srr.py"]
-    cases = {"quick": 600, "thorough": 24000}
+    cases = {"quick": 600, "thorough": 12000}
     rule = ("random Laser / spot / SRR lasers (equal-shape layers, shapes from 1x1, 1-8 elements with unicode names incl. tabs, "
             "combining marks, non-BMP, >32 chars; 15 field dtypes; NaN payloads/inf/-0.0 data), calibrations with 0..6 points, "
             "half-NaN rows, all seven built-in weightings and custom weights, differing lengths, info dicts incl. empty "
@@ -623,6 +623,8 @@ class C01(Prop):
     # ------------------------------------------------------------------ shrinking
     def shrink(self, case):
         els = case["elements"]
+        if case.get("chain", 1) > 2:
+            yield {**case, "chain": 2}
         if len(els) > 1:
             for i in range(len(els)):
                 cals = [[j - (j > i), c] for j, c in case["cals"] if j != i]
